@@ -311,7 +311,7 @@ func nodeAlphabet(level string) []string {
 	} else {
 		add("PH:A:forgedNext", "RP:ok")
 	}
-	add("SR", "SR:propose", "SR:A", "SR:B", "SR:nil", "SR:notready", "TF", "DR", "Tick", "BDA", "Restart")
+	add("SR", "SR:propose", "SR:A", "SR:B", "SR:nil", "SR:notready", "TF", "DR", "Tick", "BDA", "PROP", "Restart")
 	if level != "core" {
 		add("SR:X", "SR:N")
 	}
